@@ -281,7 +281,7 @@ def run_case(case, tier):
         bad("species_not_in_priority_order", "%s (key %.6g) is served before %s (key %.6g)" % (animals[i].animal_type, keys[i], animals[i + 1].animal_type, keys[i + 1]),
             with_meat_table=h["kd"] is not None)
     obs = {"iso": case["iso"], "strategy": case["strategy"], "shape": case["shape"], "N": N, "calls": len(calls), "partial": int(partial), "full": int(full), "zero": int(zero),
-           "with_meat_table": h["kd"] is not None, "viol_counts": dict(seen)}
+           "with_meat_table": h["kd"] is not None, "wrapper_compared": h.get("wrapper_diff") is not None, "viol_counts": dict(seen)}
     return {"viol": viol, "obs": obs}
 
 
@@ -305,9 +305,12 @@ def summarize(cases, records, tier):
         "herd_runs": len(runs), "direct_calls_by_branch": dict(br),
         "calls_partially_fed": int(partial), "calls_fully_fed": int(sum(r["obs"]["full"] for r in runs)), "calls_nothing_delivered": int(sum(r["obs"]["zero"] for r in runs)),
         "runs_with_meat_table_priority": sum(1 for r in runs if r["obs"]["with_meat_table"]),
+        "runs_also_compared_through_the_wrapper": sum(1 for r in runs if r["obs"].get("wrapper_compared")),
     }
     if partial == 0:
         cov["inconclusive_reason"] = "partially-fed branch never reached inside herd runs"
+    if runs and not cov["runs_also_compared_through_the_wrapper"]:
+        cov["inconclusive_reason"] = "no herd run was compared through the CalculateFeedAndMeat wrapper"
     if not br:
         cov["inconclusive_reason"] = "no direct calls evaluated"
     return cov
